@@ -56,7 +56,8 @@ def run_case(case):
             script = SE.last_migration_script(cur) or ''
             detail = (c[1] + f'\n--- S{i-1} ---\n{case["chain"][i-1]}\n--- S{i} ---\n{text}'
                       f'\n--- migration ---\n{script}')
-            return [(c[0] + c02._script_features(detail), detail)], info
+            tag = c02._dropped_errmessage(detail, case['chain'][i - 1], text) if 'Constraint.errmessage' in c[0] else ''
+            return [(c[0] + c02._script_features(detail) + tag, detail)], info
         if not text.strip():
             from vp_harness.oracles import semdump as SD
             base = SD.semdump(SE.target_from_sdl('module default {}'))
